@@ -17,6 +17,12 @@ func (t *Dense) Transpose() error {
 		return nil // cannot transpose scalars - no data movement
 	}
 
+	if t.viewOf != 0 && t.o.IsNotContiguous() && !t.IsVector() {
+		// the elements are moved within the window as one contiguous block, but the window of a
+		// non-contiguous view also holds elements of the viewed tensor that are not the view's
+		return errors.Errorf(methodNYI, "Transpose", "non-contiguous views")
+	}
+
 	defer func() {
 		t.old.zero()
 		t.transposeWith = nil
